@@ -387,7 +387,7 @@ fn src_grammar(src: &str) -> (String, String, Option<String>) {
             let seed: u64 = f[1].parse().unwrap();
             let k: usize = f[2].parse().unwrap();
             let mut rng = Rng::new(seed ^ 0x4B37 ^ (k as u64).wrapping_mul(0x9E37));
-            ("kwnest".into(), serde_json::to_string(&kw_nest_grammar(&mut rng, &format!("c15kwn{k}")).0).unwrap(), None)
+            ("kwnest".into(), serde_json::to_string(&kw_nest_grammar(&mut rng, &format!("c15kwn{k}"), k).0).unwrap(), None)
         }
         "json" => ("cfg".into(), String::from_utf8(unhex(f[1])).unwrap(), None),
         _ => panic!("bad src {src}"),
@@ -402,12 +402,15 @@ fn src_grammar(src: &str) -> (String, String, Option<String>) {
 /// token precedence on the keywords / on the pattern.  The token-conflict relation between `word` and a keyword
 /// is ASYMMETRIC (only the preferred token shadows the other), so a merge test that looks at one direction
 /// only merges two of these states and changes what the lexer returns in the smaller context.
+/// Members 0 and 1 of every seed are pinned to the plain nested shape {word} ⊂ {word, kw} (0: no precedence, 1: keywords
+/// with token precedence +1); everything else about them is still drawn from the seed.
 /// Returns the grammar, its own terminal texts, and per context the token prefix that reaches the core's end.
-fn kw_nest_grammar(rng: &mut Rng, name: &str) -> (serde_json::Value, Vec<String>, Vec<Vec<String>>) {
+fn kw_nest_grammar(rng: &mut Rng, name: &str, k: usize) -> (serde_json::Value, Vec<String>, Vec<Vec<String>>) {
     use serde_json::json;
-    let pat_kind = rng.below(3);
+    let pat_kind = if k < 2 { rng.below(3); 0 } else { rng.below(3) };
     let pat = ["[c-w][a-z0-9]*", "[a-z][a-z0-9]*", "[c-w][a-z0-9]*"][pat_kind];
     let nctx = rng.range(2, 4);
+    let nctx = if k < 2 { 2 + k } else { nctx };
     let headers = ["a", "b", "A", "B"];
     let pool = ["end1", "end2", "do", "of", "end", "fi"];
     let nk = rng.range(1, 3);
@@ -420,13 +423,14 @@ fn kw_nest_grammar(rng: &mut Rng, name: &str) -> (serde_json::Value, Vec<String>
     }
     // precedence mode: 0 none, 1 keywords +1, 2 keywords -1, 3 word -1, 4 word +1
     let pmode = if rng.chance(1, 2) { 0 } else { rng.range(1, 4) };
+    let pmode = if k < 2 { k } else { pmode };
     let kw_named = pmode == 1 || pmode == 2 || rng.chance(1, 4);
     let tok_prec = |v: serde_json::Value, p: i64| json!({"type":"TOKEN","content":{"type":"PREC","value":p,"content":v}});
     let kw_use = |i: usize| -> serde_json::Value { if kw_named { sym(&format!("kw{i}")) } else { s(kws[i]) } };
     // follow sets over U = {word} ∪ keywords (index 0 = word, i+1 = keyword i)
     let nu = nk + 1;
     let mut sets: Vec<Vec<usize>> = Vec::new();
-    match rng.below(3) {
+    match if k < 2 { rng.below(3); 0 } else { rng.below(3) } {
         0 => {
             sets.push(vec![0]);
             sets.push(vec![0, 1]);
@@ -451,14 +455,14 @@ fn kw_nest_grammar(rng: &mut Rng, name: &str) -> (serde_json::Value, Vec<String>
     if rng.chance(1, 2) {
         sets.swap(0, 1);
     }
-    let core_kind = rng.below(4); // 0,1: 'x' 'y'   2: 'x'   3: 'x' word
+    let core_kind = rng.below(4); // 0,1: 'x' 'y'   2: 'x' | 'y' 'x'   3: 'x' word
     let core_toks: Vec<String> = match core_kind {
         2 => vec!["x".into()],
         3 => vec!["x".into(), "foo".into()],
         _ => vec!["x".into(), "y".into()],
     };
     let core_body = match core_kind {
-        2 => s("x"),
+        2 => choice(vec![s("x"), seq(vec![s("y"), s("x")])]), // a lone string would become the token itself
         3 => seq(vec![s("x"), sym("word")]),
         _ => seq(vec![s("x"), s("y")]),
     };
@@ -502,7 +506,7 @@ fn kw_nest_grammar(rng: &mut Rng, name: &str) -> (serde_json::Value, Vec<String>
     }));
     let mut toks: Vec<String> = headers[..nctx].iter().map(|h| h.to_string()).collect();
     toks.push("x".into());
-    if core_kind < 2 {
+    if core_kind < 3 {
         toks.push("y".into());
     }
     toks.extend(kws.iter().map(|k| k.to_string()));
@@ -844,10 +848,10 @@ fn main() {
     // Round 11: keyword-like string tokens vs an identifier pattern WITHOUT a word token, same-core states with
     // nested / overlapping look-ahead sets (asymmetric token conflicts).  Last, with its own generators: the
     // families above see the same random stream as before.
-    for k in 0..(if thorough { 80 } else { 12 }) {
+    for k in 0..(if thorough { 40 } else { 12 }) {
         let mut grng = Rng::new(seed ^ 0x4B37 ^ (k as u64).wrapping_mul(0x9E37));
         let name = format!("c15kwn{k}");
-        let (g, toks, prefixes) = kw_nest_grammar(&mut grng, &name);
+        let (g, toks, prefixes) = kw_nest_grammar(&mut grng, &name, k);
         let json = serde_json::to_string(&g).unwrap();
         match build_pair(&mut cu, &work, &name, &json, None, 2) {
             Ok(p) => {
@@ -855,7 +859,7 @@ fn main() {
                     nondet += 1;
                 }
                 em.header(&name, "kwnest", &format!("kwnest:{seed}:{k}"), &p);
-                explore_kw_nest(&mut em, &p, &name, &toks, &prefixes, if thorough { 12000 } else { 1500 });
+                explore_kw_nest(&mut em, &p, &name, &toks, &prefixes, if thorough { 5000 } else { 1500 });
                 npairs += 1;
             }
             Err(e) => {
